@@ -442,6 +442,8 @@ def knobs_for(rng: random.Random) -> dict[str, Any]:
     if rng.random() < 0.4:
         k["short_reads"] = rng.getrandbits(32)
         k["short_rate"] = rng.choice([0.2, 0.5, 0.9])
+        if rng.random() < 0.4:
+            k["pipe_like"] = ["ips_in"]  # the patch comes through something that delivers it in pieces (FIFO, pipe)
     return k
 
 
